@@ -14,6 +14,7 @@ import Mathlib.Algebra.Order.Ring.Abs
 import Mathlib.Tactic.Ring
 import Mathlib.Tactic.NormNum
 import ArtGen.Kernels
+import ArtModel.ARTMAP
 
 namespace Art.GenSpec
 
@@ -155,5 +156,67 @@ theorem sph_update (alpha beta rhat : α) (x w : List α) :
     · simp only [gt_iff_lt, hpos, if_false]; ring
 
 theorem sph_new (x : List α) : Gen.HypersphereART.new_weight x = sphNew x := rfl
+
+/-! ### Decision logic: match tracking, comparison operator, supervised veto -/
+
+section Logic
+variable {β : Type} [Field β] [LinearOrder β] [IsStrictOrderedRing β]
+
+/-- `BaseART._match_tracking` is the model's `trackScalar` / `keep` for every mode
+(also the verbatim copies in DualVigilanceART, TopoART and CVIART). -/
+theorem base_match_tracking (inf : β) (mode : MT) (M eps rho : β) :
+    Gen.BaseART.match_tracking inf mode M eps rho =
+      ((scalarCfg mode false (· + eps) (· - eps) inf).track rho M,
+       (scalarCfg (α := β) mode false (· + eps) (· - eps) inf).keep) := by
+  cases mode <;> rfl
+
+theorem dual_match_tracking (inf : β) (mode : MT) (M eps rho : β) :
+    Gen.DualVigilanceART.match_tracking inf mode M eps rho = Gen.BaseART.match_tracking inf mode M eps rho := by
+  cases mode <;> rfl
+
+theorem topo_match_tracking (inf : β) (mode : MT) (M eps rho : β) :
+    Gen.TopoART.match_tracking inf mode M eps rho = Gen.BaseART.match_tracking inf mode M eps rho := by
+  cases mode <;> rfl
+
+theorem cviart_match_tracking (inf : β) (mode : MT) (M eps rho : β) :
+    Gen.CVIART.match_tracking inf mode M eps rho = Gen.BaseART.match_tracking inf mode M eps rho := by
+  cases mode <;> rfl
+
+/-- BayesianART tracks the other way round (its vigilance is an upper bound on det cov):
+`M - eps` for MT+, `M + eps` for MT-, `-inf` for MT1. -/
+theorem bayes_match_tracking (inf : β) (mode : MT) (M eps rho : β) :
+    Gen.BayesianART.match_tracking inf mode M eps rho =
+      ((scalarCfg mode true (· - eps) (· + eps) (-inf)).track rho M,
+       (scalarCfg (α := β) mode true (· - eps) (· + eps) (-inf)).keep) := by
+  cases mode <;> rfl
+
+/-- `_match_tracking_operator`: `>` exactly for MT0 and MT~ -/
+theorem operator_strict (mode : MT) : Gen.BaseART.strict mode = mtStrict mode := by
+  cases mode <;> rfl
+
+/-- `match_criterion_bin` applied to the operator of the mode is the model's `passesScalar` -/
+theorem base_match_bin (mode : MT) (M rho : β) :
+    Gen.BaseART.match_bin (fun a b => if Gen.BaseART.strict mode then decide (b < a) else decide (b ≤ a)) M rho =
+      passesScalar mode false rho M := by
+  cases mode <;> simp [Gen.BaseART.match_bin, Gen.BaseART.strict, passesScalar, mtStrict]
+
+theorem bayes_match_bin (mode : MT) (M rho : β) :
+    Gen.BayesianART.match_bin (fun a b => if Gen.BaseART.strict mode then decide (b < a) else decide (b ≤ a)) M rho =
+      passesScalar mode true rho M := by
+  cases mode <;> simp [Gen.BayesianART.match_bin, Gen.BaseART.strict, passesScalar, mtStrict]
+
+/-- `SimpleARTMAP.match_reset_func` allows a category unless it is mapped to another class:
+the negation of the model's `mapVeto`. -/
+theorem smap_match_reset (m : List (Option Nat)) (a b : Nat) :
+    Gen.SimpleARTMAP.match_reset (mapGet m) a b = !mapVeto m b a := by
+  unfold Gen.SimpleARTMAP.match_reset mapVeto
+  cases h : mapGet m a with
+  | none => simp
+  | some y =>
+    by_cases e : y = b
+    · subst e; simp
+    · simp [e]
+
+end Logic
 
 end Art.GenSpec
